@@ -2,7 +2,11 @@ package rux
 
 // C15 — a URL built for a named route is routed back to that route.
 
-import "regexp"
+import (
+	"math"
+	"net/url"
+	"regexp"
+)
 
 var verifC15Pool = []string{
 	"/a", "/a/b.c",
@@ -201,4 +205,40 @@ func verifHarness_C15_buildBeforeAttach() {
 	m, _, _ := r.QuickMatch("GET", got)
 	verifAssert(m == rt, "and is routed back to the route")
 	verifCover("C15 build before attach")
+}
+
+
+// Arguments of any integer type are written in decimal, at the edges of their
+// types too, and the URL is routed back with that text as the parameter.
+func verifHarness_C15_numericArgs() {
+	vals := []any{uint64(1) << 63, uint64(math.MaxUint64), uint(1) << 63, int64(math.MaxInt64), uint32(math.MaxUint32), uint8(255), int(0), int16(math.MaxInt16), uint64(math.MaxInt64)}
+	texts := []string{"9223372036854775808", "18446744073709551615", "9223372036854775808", "9223372036854775807", "4294967295", "255", "0", "32767", "9223372036854775807"}
+	k := verifChoice("value", len(vals))
+	style := verifChoice("style", 3)
+	r := New()
+	rt := r.GET(`/items/{id:\d+}`, verifNop)
+	rt.NamedTo("item", r)
+	var path, query string
+	c := verifCatch(func() {
+		var u *url.URL
+		switch style {
+		case 0:
+			u = r.BuildURL("item", "{id}", vals[k], "n", vals[k])
+		case 1:
+			u = r.BuildURL("item", M{"{id}": vals[k], "n": vals[k]})
+		default:
+			b := NewBuildRequestURL()
+			b.Params(M{"{id}": vals[k]})
+			u = r.BuildURL("item", b)
+		}
+		path, query = u.Path, u.RawQuery
+	})
+	verifAssert(c == "", "building a URL from an integer argument does not panic")
+	verifAssert(path == "/items/"+texts[k], "an integer argument is written in decimal")
+	if style != 2 {
+		verifAssert(query == "n="+texts[k], "also as a query argument")
+	}
+	got, ps, _ := r.QuickMatch("GET", path)
+	verifAssert(got == rt && ps["id"] == texts[k], "and the URL is routed back with that value")
+	verifCover("C15 numeric argument")
 }
